@@ -233,3 +233,9 @@ ANY_TAGGED = [Contract(
     external=['tagged-any-holds-the-contents', 'untagged-any-holds-the-whole-element', 'consumed', 'one-result'])
     for kind in ('type', 'tagmap')]
 CONTRACTS = CONTRACTS + ANY_TAGGED
+
+
+# ---- bounded instances (fixed number of alternatives / members), labelled so --------------------------------------------------
+for _c in [CHOICE_SET] + CHOICE_CLEAR:
+    _c.bounded = 'CHOICE types of exactly %d alternatives, every selection state and position' % NALT
+NATIVE_SET.bounded = 'records of exactly 3 members, every OPTIONAL / set / is-value pattern'
